@@ -5,10 +5,13 @@ import (
 	"bytes"
 	"context"
 	"net"
+	"strconv"
 
 	"mosn.io/api"
 	mh2 "mosn.io/mosn/pkg/module/http2"
 	"mosn.io/mosn/pkg/module/http2/hpack"
+	"mosn.io/mosn/pkg/protocol"
+	mproto "mosn.io/mosn/pkg/protocol/http2"
 	"mosn.io/mosn/pkg/types"
 	"mosn.io/mosn/pkg/zzverif/verif"
 	"mosn.io/pkg/buffer"
@@ -112,6 +115,89 @@ func VerifC07_H2DispatchSegmentation() {
 	verif.Assert(!conn.closed, "the connection was closed although at most one stream was at fault")
 	ok := len(cb.got) == 2 && cb.got[0] == "/one" && cb.got[1] == "/two"
 	verif.Assert(ok, "the requests handed to the proxy depend on how the client's bytes were cut into reads (or a stream error made the frames behind it wait for bytes that never come)")
+	verif.Assert(rb.Len() == 0, "complete frames are left in the read buffer after the last read")
+	verif.Cover("end")
+}
+
+type zzDClientRecv struct {
+	got    int
+	status string
+}
+
+func (r *zzDClientRecv) OnReceive(ctx context.Context, h api.HeaderMap, data buffer.IoBuffer, t api.HeaderMap) {
+	r.got++
+	if rh, ok := h.(*mproto.RspHeader); ok && rh.Rsp != nil {
+		r.status = strconv.Itoa(rh.Rsp.StatusCode)
+	}
+}
+func (r *zzDClientRecv) OnDecodeError(ctx context.Context, err error, h api.HeaderMap) {}
+
+// zzDServerWire: what an upstream server writes: SETTINGS, the response to
+// stream 1, optionally a frame on stream 3 that the client refuses with a
+// stream error, and the response to stream 5.
+func zzDServerWire(bad int) []byte {
+	var wire bytes.Buffer
+	fw := mh2.NewFramer(&wire, nil)
+	fw.AllowIllegalWrites = true
+	fw.WriteSettings()
+	var hbuf bytes.Buffer
+	enc := hpack.NewEncoder(&hbuf)
+	block := func(status string, badName bool) []byte {
+		hbuf.Reset()
+		enc.WriteField(hpack.HeaderField{Name: ":status", Value: status})
+		if badName {
+			enc.WriteField(hpack.HeaderField{Name: "X-Upper", Value: "v"})
+		}
+		return append([]byte(nil), hbuf.Bytes()...)
+	}
+	fw.WriteHeaders(mh2.HeadersFrameParam{StreamID: 1, BlockFragment: block("200", false), EndStream: true, EndHeaders: true})
+	switch bad {
+	case 1:
+		fw.WriteWindowUpdate(3, 0)
+	case 2:
+		fw.WriteHeaders(mh2.HeadersFrameParam{StreamID: 3, BlockFragment: block("200", true), EndStream: true, EndHeaders: true})
+	}
+	fw.WriteHeaders(mh2.HeadersFrameParam{StreamID: 5, BlockFragment: block("204", false), EndStream: true, EndHeaders: true})
+	return wire.Bytes()
+}
+
+// VerifC07_H2ClientDispatchSegmentation: the upstream HTTP/2 stream layer
+// (the real clientStreamConnection with three requests in flight) is fed the
+// server's bytes in one piece or cut in two at any place. Wherever the cut
+// falls, the requests on streams 1 and 5 get their responses (200 and 204),
+// each exactly once - also when a frame for stream 3 between them is refused
+// with a stream error.
+func VerifC07_H2ClientDispatchSegmentation() {
+	bad := verif.Choose("refused_frame_between", 3)
+	wire := zzDServerWire(bad)
+	cut := verif.Choose("cut", len(wire)+1)
+	conn := &zzDConn{}
+	ctx := variable.NewVariableContext(context.Background())
+	sc := newClientStreamConnection(ctx, conn, &zzDCallbacks{}).(*clientStreamConnection)
+	var recvs []*zzDClientRecv
+	for i := 0; i < 3; i++ {
+		rctx := variable.NewVariableContext(context.Background())
+		variable.SetString(rctx, types.VarHost, "a.b")
+		variable.SetString(rctx, types.VarPath, "/p")
+		variable.SetString(rctx, types.VarMethod, "GET")
+		r := &zzDClientRecv{}
+		recvs = append(recvs, r)
+		s := sc.NewStream(rctx, r)
+		verif.Assert(s.AppendHeaders(rctx, protocol.CommonHeader{}, true) == nil, "a request could not be sent")
+	}
+	rb := buffer.NewIoBuffer(256)
+	rb.Write(wire[:cut])
+	sc.Dispatch(rb)
+	if cut < len(wire) {
+		rb.Write(wire[cut:])
+		sc.Dispatch(rb)
+	}
+	verif.Assert(!conn.closed, "the connection was closed although at most one stream was at fault")
+	verif.Assert(recvs[0].got == 1 && recvs[0].status == "200", "the response on stream 1 did not reach its request exactly once")
+	verif.Assert(recvs[2].got == 1 && recvs[2].status == "204", "the response on stream 5 depends on how the server's bytes were cut into reads (or a stream error made the frames behind it wait)")
+	if bad == 0 {
+		verif.Assert(recvs[1].got == 0, "a request got a response that was never sent")
+	}
 	verif.Assert(rb.Len() == 0, "complete frames are left in the read buffer after the last read")
 	verif.Cover("end")
 }
